@@ -47,6 +47,13 @@ CutParts(parts, k) ==
                                  left |-> acc.left - Min2(acc.left, PartLen(p))],
            [out |-> <<>>, left |-> k], parts).out
 
+(* protocol-significant constants a value domain must contain (RFC 8446 section 4.1.3): the HelloRetryRequest random *)
+(* SHA-256("HelloRetryRequest") and the downgrade sentinels in the last 8 bytes of a ServerHello random            *)
+HrrRandom == <<207, 33, 173, 116, 229, 154, 97, 17, 190, 29, 140, 2, 30, 101, 184, 145,
+               194, 162, 17, 22, 122, 187, 140, 94, 7, 158, 9, 226, 200, 168, 51, 156>>
+Downgrade12 == <<68, 79, 87, 78, 71, 82, 68, 1>>
+Downgrade11 == <<68, 79, 87, 78, 71, 82, 68, 0>>
+
 (* concatenation of a sequence of byte strings *)
 Concat(ss) == FoldLeft(LAMBDA acc, s : acc \o s, <<>>, ss)
 
